@@ -141,3 +141,51 @@ Proof.
   - eauto.
   - rewrite N.succ_pos_spec in M'. lia.
 Qed.
+
+(** Same with failing steps: the final outcome (value or error) satisfies [Q]. *)
+Lemma loopP_inv_q {S A} (f : S -> result (S + A)) (Inv : S -> Prop) (mu : S -> N) (Q : result A -> Prop) :
+  (forall s, Inv s ->
+     (exists s', f s = Ok (inl s') /\ Inv s' /\ mu s' < mu s) \/
+     (exists a, f s = Ok (inr a) /\ Q (Ok a)) \/
+     (exists k m, f s = Err k m /\ Q (Err k m))) ->
+  forall p s, Inv s ->
+    (exists a, loopP p f s = Ok (inr a) /\ Q (Ok a)) \/
+    (exists k m, loopP p f s = Err k m /\ Q (Err k m)) \/
+    (exists s', loopP p f s = Ok (inl s') /\ Inv s' /\ mu s' + Npos p <= mu s).
+Proof.
+  intros Hstep. induction p as [p IH|p IH|]; intros s HI; cbn [loopP].
+  - destruct (Hstep s HI) as [(s0 & E0 & I0 & M0)|[(a & E0 & Qa)|(k & m & E0 & Qe)]]; rewrite E0; cbn [bind].
+    + destruct (IH s0 I0) as [(a & E1 & Qa)|[(k & m & E1 & Qe)|(s1 & E1 & I1 & M1)]]; rewrite E1; cbn [bind].
+      * left; eauto.
+      * right; left; eauto.
+      * destruct (IH s1 I1) as [(a & E2 & Qa)|[(k & m & E2 & Qe)|(s2 & E2 & I2 & M2)]]; rewrite E2.
+        -- left; eauto.
+        -- right; left; eauto.
+        -- right; right. exists s2. repeat split; auto. lia.
+    + left; eauto.
+    + right; left; eauto.
+  - destruct (IH s HI) as [(a & E1 & Qa)|[(k & m & E1 & Qe)|(s1 & E1 & I1 & M1)]]; rewrite E1; cbn [bind].
+    + left; eauto.
+    + right; left; eauto.
+    + destruct (IH s1 I1) as [(a & E2 & Qa)|[(k & m & E2 & Qe)|(s2 & E2 & I2 & M2)]]; rewrite E2.
+      * left; eauto.
+      * right; left; eauto.
+      * right; right. exists s2. repeat split; auto. lia.
+  - destruct (Hstep s HI) as [(s0 & E0 & I0 & M0)|[(a & E0 & Qa)|(k & m & E0 & Qe)]]; rewrite E0.
+    + right; right. exists s0. repeat split; auto. lia.
+    + left; eauto.
+    + right; left; eauto.
+Qed.
+
+Lemma loop_fuel_inv_q {S A} (f : S -> result (S + A)) (Inv : S -> Prop) (mu : S -> N) (Q : result A -> Prop) fuel s :
+  (forall s, Inv s ->
+     (exists s', f s = Ok (inl s') /\ Inv s' /\ mu s' < mu s) \/
+     (exists a, f s = Ok (inr a) /\ Q (Ok a)) \/
+     (exists k m, f s = Err k m /\ Q (Err k m))) ->
+  Inv s -> mu s <= fuel -> Q (loop_fuel fuel f s).
+Proof.
+  intros Hstep HI Hm. unfold loop_fuel.
+  destruct (loopP_inv_q f Inv mu Q Hstep (N.succ_pos fuel) s HI)
+    as [(a & E & Qa)|[(k & m & E & Qe)|(s' & E & I' & M')]]; rewrite E; cbn [bind]; auto.
+  rewrite N.succ_pos_spec in M'. lia.
+Qed.
